@@ -253,6 +253,21 @@ def run(case):
             want = op["differ"] is None
             if not a.ok or a.value != want:
                 bad = "table == (table with %s) gives %s" % ("the same values" if want else "one value changed", repr(a) if not a.ok else a.value)
+            vs_ = list(md.values())
+            if not bad and len(keys) >= 1 and all(eqval(v_, vs_[0]) for v_ in vs_) and np.isfinite(vs_[0]):
+                # every key holds the same value: a table that stores it once (built from the scalar) and a table that stores it per key are the same
+                # dictionary -- compared in either order, with each other and with the table under test
+                CTX.tick("c11:eq-mixed-states")
+                c_ = vs_[0]
+                once_ = attempt(lambda: lib.HashTable(karr(keys, kd), c_ if float(c_) != int(c_) else (int(c_) if vdt.kind in "iu" else float(c_)), **kw))
+                each_ = attempt(lambda: lib.HashTable(karr(keys, kd), np.full(len(keys), c_, dtype=vdt_), **kw))
+                if once_.ok and each_.ok:
+                    for nm_, l_, r_ in (("table == stored-once", tb, once_.value), ("stored-once == table", once_.value, tb), ("table == stored-per-key", tb, each_.value), ("stored-per-key == table", each_.value, tb),
+                                        ("stored-per-key == stored-once", each_.value, once_.value), ("stored-once == stored-per-key", once_.value, each_.value)):
+                        a = attempt(lambda: bool(l_ == r_))
+                        if not a.ok or a.value is not True:
+                            bad = "every key holds %r, but (%s) gives %s" % (c_, nm_, repr(a) if not a.ok else a.value)
+                            break
             if not bad and mod is not None and kd != "uint64":
                 # a table over ANOTHER key set with the same bucket layout (one key moved by the modulus): never equal, whatever the values' state
                 k0 = keys[0]
@@ -509,6 +524,14 @@ def directed():
             yield {"keys": keys, "kdtype": kd, "mod": mod, "init": init, "vdtype": "int64", "nonkeys": absent[:5], "style": "collide-all",
                    "ops": [{"op": "contains", "table": "t", "keys": q}, {"op": "hs_containsv", "table": "t", "keys": q[::-1]}, {"op": "getv", "table": "t", "keys": [k for k in q if k in ks_][:nq // 2]},
                            {"op": "setv", "table": "t", "keys": keys[:3], "vals": [777]}, {"op": "contains", "table": "t", "keys": q[:50]}, {"op": "getv", "table": "t", "keys": keys[:7]}]}
+    # tables in which every key holds the same value, stored once or per key, compared with each other (also after a fill / a full assignment)
+    for kd in ("int64", None, "uint8", "int32"):
+        for keys in ([3, 7, 11, 20, 41], [5], [0, 1, 2, 3]):
+            for init in (4, [4] * len(keys), 2.5, [2.5] * len(keys)):
+                vd_ = "float64" if isinstance(init, float) or (isinstance(init, list) and isinstance(init[0], float)) else "int64"
+                for pre in ([], [{"op": "fill", "table": "t", "val": 9}], [{"op": "setv", "table": "t", "keys": list(keys), "vals": [6]}], [{"op": "getv", "table": "t", "keys": keys[:1]}]):
+                    yield {"keys": keys, "kdtype": kd, "mod": rng.choice([None, 7, 1]), "init": init, "vdtype": vd_, "nonkeys": [99, 100], "style": "small",
+                           "ops": pre + [{"op": "eq", "table": "t", "differ": None}, {"op": "zeros_like", "table": "t"}, {"op": "eq", "table": "d1", "differ": None}, {"op": "eq", "table": "t", "differ": 0}]}
     # 12..40 keys spread over a huge range; membership queries in which an absent key occurs several times
     for nk in (12, 20, 25, 40):
         keys = [(i * 3 + 1) * 2 ** 40 + i * 7 for i in range(nk)]
